@@ -349,7 +349,7 @@ Fixpoint zip_keys {A} (ks : list Z) (l : list A) : list (Z * A) :=
   end.
 
 (* a fresh pg.List built from items (List(items)): nodes are cloned (they have a parent), MISSING is dropped *)
-Definition default_flags : flags := mkFlags false true false.
+Definition default_flags : flags := mkFlags false true false 0.
 Definition new_list_from (st : state) (its : list (key * node)) : node * state :=
   let '(c, cs) := clone_at (q_copy_drops_missing q) false None [] (Node 0%N KList None [] default_flags its) (next_id st, []) in
   (c, with_next st (fst cs)).
@@ -631,7 +631,7 @@ Definition exec (sc : scope) (st : state) (ps : pos) (tid : N) (tk : kind) (tpth
       let st1 := with_next st (fst cs) in
       (add_root st1 c, Ok (RPos (length (roots st1), [])))
   | Seal b => (update_at st ps (seal_rec b), Ok RNone)
-  | SetAW b => (update_at st ps (set_flags (fun f => mkFlags (f_sealed f) b (f_partial f))), Ok RNone)
+  | SetAW b => (update_at st ps (set_flags (fun f => mkFlags (f_sealed f) b (f_partial f) (f_spec f))), Ok RNone)
   end.
 
 (* End of a step: what the user cannot hold is not a root.  Among the slots created by this step, one whose
